@@ -1850,8 +1850,16 @@ class Exec(object):
             return len(v) == 0
         if name == "get":
             i = args[0]
-            if isinstance(i, tuple) and i[0] == "range":
-                self.unsupported(line, ".get(range)")
+            if isinstance(i, tuple) and len(i) == 3 and i[0] == "range":
+                # slice.get(a..b): None instead of a panic when the range does not fit
+                n = len(v)
+                lo = 0 if i[1] is None else i[1]
+                hi = n if i[2] is None else i[2]
+                lo_c = self.concretize(lo, n + 1, line)
+                hi_c = self.concretize(hi, n + 1, line)
+                if lo_c is None or hi_c is None or hi_c > n or lo_c > hi_c:
+                    return ResultV("None")
+                return ResultV("Some", RList(v[lo_c:hi_c]))
             c = self.concretize(i, len(v), line)
             return ResultV("Some", v[c]) if c is not None and c < len(v) else ResultV("None")
         if name in ("push", "push_back"):
